@@ -93,6 +93,12 @@ def histories(max_len):
 
 
 def cases(max_len=5):
+    # ages that are not whole seconds below one day (fractions of a second; more than a day of silence): the window is a SPAN, compared as such
+    for B in (2, None):
+        for W in (1, 2, 30):
+            for gap in (0.5, 1.5, 2.5, 86400 + 20, 86400 * 2 + 0.25):
+                yield {"buffer_size": B, "window": W, "history": [[0, ["next", "a"]], [0, ["next", "b"]], [gap, ["sub"]], [gap, ["next", "c"]], [gap + 0.25, ["sub"]]]}
+                yield {"buffer_size": B, "window": W, "history": [[0, ["next", "a"]], [0.25, ["error"]], [gap, ["sub"]]]}
     for B in (0, 1, 2, None):
         for W in (None, 1, 2):
             for h in histories(max_len if (B in (1, None) and W in (None, 1)) else max_len - 1):
